@@ -451,6 +451,9 @@ type FuncSpec struct {
 	Pure      bool
 	Where     string
 	Allocates bool
+	AllocTypes []string // type texts of the objects the function may allocate (besides what it returns)
+	merged     bool
+	Implements string          // name of a function-type contract ("type ModifyFn") this function must also satisfy
 	ftSig     *types.Signature // contracts of named function types
 	ftParams  []string
 }
@@ -487,6 +490,7 @@ type SpecFile struct {
 	Funcs     map[string]*FuncSpec
 	FuncOrder []string
 	SpecFuncs []*SpecFunc
+	Ghosts    map[string]string // ghost variable -> type text
 	Axioms    []*Axiom
 	Lemmas    []*Lemma
 }
@@ -552,7 +556,7 @@ func parseModifies(rest, where string) ([]*SExpr, error) {
 
 var specKeywords = map[string]bool{"func": true, "props": true, "requires": true, "ensures": true, "modifies": true,
 	"loop": true, "invariant": true, "decreases": true, "step": true, "spec": true, "axiom": true, "lemma": true, "trusted": true,
-	"pure": true, "end": true, "allocates": true, "maypanic": true}
+	"pure": true, "end": true, "allocates": true, "maypanic": true, "ghost": true, "implements": true}
 
 // parseSpecFile reads one verif_contracts.go file.
 func parseSpecFile(path, pkg string) (*SpecFile, error) {
@@ -560,7 +564,7 @@ func parseSpecFile(path, pkg string) (*SpecFile, error) {
 	if err != nil {
 		return nil, err
 	}
-	sf := &SpecFile{Pkg: pkg, Funcs: map[string]*FuncSpec{}}
+	sf := &SpecFile{Pkg: pkg, Funcs: map[string]*FuncSpec{}, Ghosts: map[string]string{}}
 	// gather logical lines
 	type ll struct {
 		text  string
@@ -631,6 +635,17 @@ func parseSpecFile(path, pkg string) (*SpecFile, error) {
 			} else if curF != nil {
 				curF.Props = ps
 			}
+		case "ghost":
+			f := strings.Fields(rest)
+			if len(f) != 2 || !strings.HasPrefix(f[0], "$") {
+				return nil, fmt.Errorf("%s: expected 'ghost $name type'", l.where)
+			}
+			sf.Ghosts[f[0]] = f[1]
+		case "implements":
+			if curF == nil {
+				return nil, fmt.Errorf("%s: implements outside func", l.where)
+			}
+			curF.Implements = strings.TrimSpace(rest)
 		case "trusted":
 			if curF == nil {
 				return nil, fmt.Errorf("%s: trusted outside func", l.where)
@@ -643,6 +658,11 @@ func parseSpecFile(path, pkg string) (*SpecFile, error) {
 		case "allocates":
 			if curF != nil {
 				curF.Allocates = true
+				for _, t := range strings.Split(rest, ",") {
+					if t = strings.TrimSpace(t); t != "" {
+						curF.AllocTypes = append(curF.AllocTypes, t)
+					}
+				}
 			}
 		case "maypanic":
 			if curF == nil {
